@@ -2,6 +2,7 @@ package govc
 
 import (
 	"go/types"
+	"regexp"
 	"strings"
 
 	"golang.org/x/tools/go/ssa"
@@ -134,6 +135,7 @@ func (x *Exec) unlockedInit(st *State, t types.Type, loc string, depth int) {
 		full := n.Obj().Pkg().Path() + "." + n.Obj().Name()
 		if strings.HasSuffix(full, "sync.Mutex") || strings.HasSuffix(full, "sync.RWMutex") {
 			x.set(st, "lock", sx("store", x.get(st, "lock"), loc, "0"))
+			x.freshMutexes = append(x.freshMutexes, loc)
 			return
 		}
 	}
@@ -145,4 +147,23 @@ func (x *Exec) unlockedInit(st *State, t types.Type, loc string, depth int) {
 			x.unlockedInit(st, u.Field(i).Type(), fld(loc, i), depth+1)
 		}
 	}
+}
+
+var recordedRe = regexp.MustCompile(`recorded\("([^"]*)"\)`)
+
+// aboutCalleeEvents: does a postcondition speak about the callee's own ghost events (call counters, select outcomes,
+// values recorded under names other than the one the call itself records)?
+func aboutCalleeEvents(e Expr, ct *FnContract) bool {
+	s := e.String()
+	for _, k := range []string{"count(", "selected(", "offers(", "lastnow("} {
+		if strings.Contains(s, k) {
+			return true
+		}
+	}
+	for _, m := range recordedRe.FindAllStringSubmatch(s, -1) {
+		if m[1] != ct.Options["records"] && m[1] != ct.Options["records1"] {
+			return true
+		}
+	}
+	return false
 }
